@@ -135,6 +135,17 @@ def check_shape(part, normals, energies, case, key, scale_test=False):
                 part.fail("mesh-inward:%s" % key, "faces are oriented inwards (signed volume %.6g)" % sv, case)
             if abs(abs(sv) - ref_vol) > 1e-7 * ref_vol:
                 part.fail("volume:%s" % key, "mesh volume %.9g differs from the half-space intersection's %.9g" % (abs(sv), ref_vol), case)
+        # a caller may do what it likes with the mesh it was handed (scale it, move it): asking the construction again gives the
+        # shape again, and the vertex list of the construction is untouched
+        V_before = np.array(w.wulff_vertices, dtype=float, copy=True)
+        tm.vertices *= 2.5
+        tm.vertices += np.array([3.0, -1.0, 0.5])
+        tm2 = w.to_trimesh()
+        mv2, mf2, _ = mesh.merge_vertices(np.asarray(tm2.vertices), np.asarray(tm2.faces), 1e-6 * scale)
+        part.tr()
+        if len(mv2) != len(mv) or not (subset(mv2, mv) and subset(mv, mv2)) or abs(abs(mesh.signed_volume(mv2, mf2)) - abs(mesh.signed_volume(mv, mf))) > 1e-7 * ref_vol \
+                or np.abs(np.asarray(w.wulff_vertices, dtype=float) - V_before).max() > 0:
+            part.fail("mesh-follows-callers-edits:%s" % key, "after the caller scaled and moved the mesh returned by to_trimesh(), a second to_trimesh() / wulff_vertices no longer describe the shape", case)
     except Exception as e:
         part.fail("mesh-raise:%s" % key, "to_trimesh / mesh check raised %r" % e, case)
     nn = np.asarray(normals)
